@@ -222,6 +222,14 @@ func (r *replicator) Load(ctx context.Context, entries []ipfslog.Entry) {
 	r.muProcess.Unlock()
 
 	wg.Wait()
+
+	// everything this request asked for has been fetched or given up: hand
+	// over what is buffered now. Waiting for the whole replicator to be idle
+	// would let one fetch that never completes (a head naming a block nobody
+	// holds) keep every other fetched entry out of the store for ever
+	r.muProcess.Lock()
+	r.idle()
+	r.muProcess.Unlock()
 }
 
 // processOne wait for a process slot then process the given element of the queue
